@@ -230,6 +230,12 @@ fn one(ctx: &mut Ctx, parser: &CooklangParser, rng: &mut Rng, input: &str) {
         Ok(m) => Some(format!("json scalable ( full {m} {} {} )", recipe_sexp::opt(r.servings(), |s| recipe_sexp::list(s, |n| n.to_string())), recipe_sexp::scalable_recipe(&r))),
         Err(e) => { if fin { ctx.oracle_fail(desc.clone(), format!("parsed metadata cannot be written as JSON: {e}"), "c15:metadata-not-json-representable".into()); } None }
     };
+    // what a UI does before saving: read-only accessors (they must not change what equality or the JSON sees)
+    if rng.chance(1, 2) {
+        let conv = parser.converter();
+        let _ = guarded(|| { let m = &r.metadata; let _ = (m.servings(), m.title(), m.tags(), m.time(conv), m.author(), m.source(), m.locale(), m.description()); let _ = r.servings(); });
+        ctx.count("accessors-read-before-serialising");
+    }
     check_json(ctx, &Stats { what: "scalable", tainted }, &desc, &r, fin, op, Some(&|a: &ScalableRecipe, b: &ScalableRecipe| a == b));
 
     // scaled / converted variants (ScalableRecipe is not Clone: parse again)
